@@ -1,6 +1,9 @@
 import Orx.KSRun
 import Orx.IW.Completed
-import Orx.GenThms
+import Orx.GenThms.Slice
+import Orx.GenThms.Vec
+import Orx.GenThms.Arr
+import Orx.GenThms.Range
 /-! # C06 skip_to_end stops the iteration for everyone, permanently -/
 namespace Orx.Props.C06
 open Orx Orx.KS
